@@ -182,7 +182,6 @@ public:
 					for (unsigned i = src_nbits; i < nbits; ++i) setbit(i);
 				}
 			}
-#ifdef TODO
 			// round: <src_nbits, src_rbits> -> <nbits, rbits>
 			// we round on the difference between (src_rbits - rbits) fraction bits
 			// and modulo arithmetic, lop of the high order integer bits
@@ -193,7 +192,9 @@ public:
 				if (roundUp) ++rawbb;
 				_block = rawbb;
 			}
-#endif
+			else if constexpr (src_rbits < rbits) {
+				_block <<= rbits - src_rbits; // move the radix point to its new position
+			}
 		}
 		else {
 			// round: <src_nbits, src_rbits> -> <nbits, rbits>
